@@ -129,8 +129,10 @@ static Array::Ptr ArrayMap(const Function::Ptr& function)
 
 	ArrayData result;
 
-	ObjectLock olock(self);
-	for (const Value& item : self) {
+	/* Iterate over a snapshot: the callback may modify the array it was called on. */
+	Array::Ptr items = self->ShallowClone();
+	ObjectLock olock(items);
+	for (const Value& item : items) {
 		result.push_back(function->Invoke({ item }));
 	}
 
@@ -172,8 +174,10 @@ static Array::Ptr ArrayFilter(const Function::Ptr& function)
 
 	ArrayData result;
 
-	ObjectLock olock(self);
-	for (const Value& item : self) {
+	/* Iterate over a snapshot: the callback may modify the array it was called on. */
+	Array::Ptr items = self->ShallowClone();
+	ObjectLock olock(items);
+	for (const Value& item : items) {
 		if (function->Invoke({ item }))
 			result.push_back(item);
 	}
@@ -191,8 +195,10 @@ static bool ArrayAny(const Function::Ptr& function)
 	if (vframe->Sandboxed && !function->IsSideEffectFree())
 		BOOST_THROW_EXCEPTION(ScriptError("Filter function must be side-effect free."));
 
-	ObjectLock olock(self);
-	for (const Value& item : self) {
+	/* Iterate over a snapshot: the callback may modify the array it was called on. */
+	Array::Ptr items = self->ShallowClone();
+	ObjectLock olock(items);
+	for (const Value& item : items) {
 		if (function->Invoke({ item }))
 			return true;
 	}
@@ -210,8 +216,10 @@ static bool ArrayAll(const Function::Ptr& function)
 	if (vframe->Sandboxed && !function->IsSideEffectFree())
 		BOOST_THROW_EXCEPTION(ScriptError("Filter function must be side-effect free."));
 
-	ObjectLock olock(self);
-	for (const Value& item : self) {
+	/* Iterate over a snapshot: the callback may modify the array it was called on. */
+	Array::Ptr items = self->ShallowClone();
+	ObjectLock olock(items);
+	for (const Value& item : items) {
 		if (!function->Invoke({ item }))
 			return false;
 	}
